@@ -234,6 +234,27 @@ def runLabels (op : String) (a : Json) : Except String Json := do
     let out := Labels.applyLabels specs g v k L locs
     return Json.mkObj [("ok", Json.arr (out.map fun (p, d) => Json.mkObj [("path", Json.str p),
       ("cur", match d with | some d => dictToJson d | none => Json.null)]).toArray)]
+  | "entries" =>
+    let g ← (a.getObjValD "group").getStr?
+    let v ← (a.getObjValD "version").getStr?
+    let k ← (a.getObjValD "kind").getStr?
+    let locs ← (← (a.getObjValD "locs").getArr?).toList.mapM fun l => do
+      let p ← (l.getObjValD "path").getStr?
+      let cur := l.getObjValD "cur"
+      let d ← (if cur.isNull then pure none else do return some (← dictOfJson cur))
+      return ((p, d) : Labels.Loc)
+    let entries ← (← (a.getObjValD "entries").getArr?).toList.mapM fun e => do
+      let L ← dictOfJson (e.getObjValD "labels")
+      let fields := match (e.getObjValD "fields").getArr? with
+        | .ok l => l.toList.map fun f =>
+            let h (k : String) : String := (f.getObjValD k).getStr?.toOption.getD ""
+            (⟨h "group", h "version", h "kind", h "path", (f.getObjValD "create").getBool?.toOption.getD false⟩ : Gen.FieldSpec)
+        | _ => []
+      return ({ pairs := L, includeSelectors := (e.getObjValD "includeSelectors").getBool?.toOption.getD false,
+                includeTemplates := (e.getObjValD "includeTemplates").getBool?.toOption.getD false, fields := fields } : Labels.Entry)
+    return outToJson (fun (out : List Labels.Loc) => Json.arr (out.map fun (p, d) => Json.mkObj [("path", Json.str p),
+      ("cur", match d with | some d => dictToJson d | none => Json.null)]).toArray)
+      (Labels.applyEntries Gen.commonLabelsSpecs Gen.templateLabelsSpecs g v k entries locs)
   | _ => throw s!"unknown labels op {op}"
 
 def runImage (op : String) (a : Json) : Except String Json := do
